@@ -968,20 +968,32 @@ func runPkg(p *Pkg, d *Desc, job *Job, res *Result, kinds map[string]bool) {
 				break
 			}
 			V := genVals(m.In)
-			scenario := []string{"call", "call", "error", "more", "oneway", "upgrade"}[set%6]
-			if scenario == "error" && len(errs) == 0 {
-				scenario = "call"
+			scenario := []string{"call", "error", "more", "oneway", "upgrade", "more-error", "upgrade-error", "call"}[set%8]
+			base := strings.TrimSuffix(scenario, "-error")
+			isErr := scenario == "error" || strings.HasSuffix(scenario, "-error")
+			if isErr && len(errs) == 0 {
+				isErr = false
+				if scenario == "error" {
+					base = "call"
+				}
+				scenario = base
+			}
+			if scenario == "error" {
+				base = "call"
 			}
 			plan := &Plan{}
 			nrep := 1
-			if scenario == "more" {
+			if base == "more" {
 				nrep = 1 + w.rng.Intn(4)
+				if isErr {
+					nrep = 2 + w.rng.Intn(2)
+				}
 			}
 			for i := 0; i < nrep; i++ {
 				plan.Replies = append(plan.Replies, genVals(m.Out))
 			}
 			var em Mem
-			if scenario == "error" {
+			if isErr {
 				em = errs[w.rng.Intn(len(errs))]
 				plan.Err = em.Name
 				plan.ErrVals = genVals(em.T)
@@ -999,8 +1011,8 @@ func runPkg(p *Pkg, d *Desc, job *Job, res *Result, kinds map[string]bool) {
 			var clientFlags []uint64
 			var clientErr error
 			var sendErr error
-			switch scenario {
-			case "call", "error":
+			switch base {
+			case "call":
 				fn := stub.MethodByName("Call")
 				in, err := callArgs(fn, 2, V)
 				if err != nil {
@@ -1031,7 +1043,7 @@ func runPkg(p *Pkg, d *Desc, job *Job, res *Result, kinds map[string]bool) {
 				}
 				rets := fn.Call(append([]reflect.Value{reflect.ValueOf(rctx), reflect.ValueOf(conn), reflect.ValueOf(fl)}, in...))
 				sendErr, _ = rets[1].Interface().(error)
-				if sendErr == nil && scenario == "more" {
+				if sendErr == nil && base == "more" {
 					recv := rets[0]
 					for i := 0; i < nrep; i++ {
 						rr := recv.Call([]reflect.Value{reflect.ValueOf(rctx)})
@@ -1063,7 +1075,9 @@ func runPkg(p *Pkg, d *Desc, job *Job, res *Result, kinds map[string]bool) {
 					viol(m.Name, "stub-shape", "%v", err)
 					continue
 				}
-				plan.ReadRaw = 5
+				if !isErr {
+					plan.ReadRaw = 5
+				}
 				rets := fn.Call(append([]reflect.Value{reflect.ValueOf(rctx), reflect.ValueOf(conn)}, in...))
 				sendErr, _ = rets[1].Interface().(error)
 				if sendErr == nil {
@@ -1130,7 +1144,7 @@ func runPkg(p *Pkg, d *Desc, job *Job, res *Result, kinds map[string]bool) {
 					if wc.Method != full {
 						viol(m.Name, "request-method", "request frame has method %q, expected %q", wc.Method, full)
 					}
-					if wc.More != (scenario == "more") || wc.Oneway != (scenario == "oneway") || wc.Upgrade != (scenario == "upgrade") {
+					if wc.More != (base == "more") || wc.Oneway != (scenario == "oneway") || wc.Upgrade != (base == "upgrade") {
 						viol(m.Name, "request-flags", "%s: request frame has more=%v oneway=%v upgrade=%v", scenario, wc.More, wc.Oneway, wc.Upgrade)
 					}
 					if len(m.In.Fields) > 0 || (len(wc.Parameters) > 0 && string(wc.Parameters) != "null") {
@@ -1142,7 +1156,7 @@ func runPkg(p *Pkg, d *Desc, job *Job, res *Result, kinds map[string]bool) {
 				}
 			}
 			// flags as the implementation sees them
-			if o.More != (scenario == "more") || o.Oneway != (scenario == "oneway") || o.Upgrade != (scenario == "upgrade") {
+			if o.More != (base == "more") || o.Oneway != (scenario == "oneway") || o.Upgrade != (base == "upgrade") {
 				viol(m.Name, "flags-at-implementation", "%s: implementation saw more=%v oneway=%v upgrade=%v", scenario, o.More, o.Oneway, o.Upgrade)
 			}
 			// (2) arguments
@@ -1216,15 +1230,34 @@ func runPkg(p *Pkg, d *Desc, job *Job, res *Result, kinds map[string]bool) {
 				}
 			}
 			// (4) what the client returned
-			switch scenario {
+			sc := scenario
+			if isErr {
+				sc = "error"
+			}
+			switch sc {
 			case "error":
 				if clientErr == nil {
-					viol(m.Name, "client-error", "the implementation replied error %s, the client stub returned success", plan.Err)
+					viol(m.Name, "client-error", "%s: the implementation replied error %s, the client stub returned success", scenario, plan.Err)
 					break
+				}
+				// the replies that came before the error (more-sequence)
+				if len(clientOuts) != len(plan.Replies)-1 {
+					viol(m.Name, "client-reply-count", "%s: client got %d replies before the error, %d were sent", scenario, len(clientOuts), len(plan.Replies)-1)
+				} else {
+					for i := range clientOuts {
+						for j, f := range m.Out.Fields {
+							if dd := w.equalV(plan.Replies[i][j], clientOuts[i][j], f.T, f.Name); dd != "" {
+								viol(m.Name, "client-values", "reply %d before the error: the client returned a different value than the implementation sent: %s", i, dd)
+							}
+						}
+						if clientFlags[i]&varlink.Continues == 0 {
+							viol(m.Name, "client-continues", "reply %d before the error: client flags %d", i, clientFlags[i])
+						}
+					}
 				}
 				want := reflect.PtrTo(reflect.TypeOf(p.Errors[plan.Err]))
 				if reflect.TypeOf(clientErr) != want {
-					viol(m.Name, "client-error-type", "the implementation replied error %s; the client stub returned %T %v, expected %v", plan.Err, clientErr, clientErr, want)
+					viol(m.Name, "client-error-type", "%s: the implementation replied error %s; the client stub returned %T %v, expected %v", scenario, plan.Err, clientErr, clientErr, want)
 					break
 				}
 				kinds["error-type:generated"] = true
@@ -1259,6 +1292,9 @@ func runPkg(p *Pkg, d *Desc, job *Job, res *Result, kinds map[string]bool) {
 						viol(m.Name, "client-continues", "reply %d of %d: client flags %d", i, len(clientOuts), clientFlags[i])
 					}
 				}
+			}
+			if base == "upgrade" && isErr {
+				connect()
 			}
 			if scenario == "upgrade" {
 				if string(o.Raw) != "HELLO" {
